@@ -15,6 +15,7 @@ type Sorts struct {
 	order    []*structSort
 	boxed    map[string]string // type string -> sort, for box/unbox functions
 	boxOrder []string
+	byStruct map[*types.Struct]*structSort
 	boxTypes map[string]types.Type
 	tags     map[string]int // type string -> interface tag
 	tagOrder []string
@@ -122,7 +123,17 @@ func (s *Sorts) structSortOf(t types.Type, st *types.Struct) *structSort {
 	if ss, ok := s.structs[key]; ok {
 		return ss
 	}
+	// `type B A` shares A's struct: pointers convert freely between *A and *B, so both names
+	// must denote the same sort and the same field heaps
+	if s.byStruct == nil {
+		s.byStruct = map[*types.Struct]*structSort{}
+	}
+	if ss, ok := s.byStruct[st]; ok {
+		s.structs[key] = ss
+		return ss
+	}
 	ss := &structSort{key: key, st: st}
+	s.byStruct[st] = ss
 	m := mangle(t)
 	if _, named := t.(*types.Named); !named {
 		m = fmt.Sprintf("anon%d", len(s.structs))
